@@ -1,5 +1,6 @@
 (* Props/C02.v — property C02: each scenario attempt emits the canonical, declaration-ordered event sequence. *)
 From CV Require Import Model.Base Model.Events Model.Attempt Model.AttemptSpec Proofs.BaseP Proofs.AttemptP.
+From CV Require Model.Sched Proofs.SchedP9.
 
 (* for every shape, every outcome assignment, with and without hooks: Started; before pair; the declared steps in
    order, each Started + exactly one result, stopping after the first non-Passed; a Failed event before the
@@ -13,3 +14,21 @@ Example C02_nonvacuous :
   = [ScStarted; ScHook true HStarted; ScHook true HPassed; ScBg 10 StStarted; ScBg 10 StPassed;
      ScStep 11 StStarted; ScStep 11 (StFailed (EPanic 5)); ScHook false HStarted; ScHook false (HFailed 7); ScFinished].
 Proof. vm_compute. reflexivity. Qed.
+
+(* INSIDE ANY INTERLEAVING: in every run of the scheduler model — any number of attempts in flight, any order in
+   which they are polled — the events of attempt k found in the emitted stream are exactly, and in the same order,
+   what attempt k itself produced (its own labels) ... *)
+Theorem C02_projection_of_the_stream_on_an_attempt :
+  forall c ls s tr k, Sched.exec c ls = Some (s, tr) -> SchedP9.out_evs k tr = SchedP9.lab_evs k ls.
+Proof. exact SchedP9.attempt_projection. Qed.
+Print Assumptions C02_projection_of_the_stream_on_an_attempt.
+
+(* ... so when attempt k is an execution of run_scenario (Attempt.run_attempt) its events appear in the stream in the
+   canonical order recognised by wf_events, whatever else is interleaved with them *)
+Theorem C02_canonical_in_every_interleaving :
+  forall c ls s tr k i,
+    Sched.exec c ls = Some (s, tr) -> SchedP9.lab_evs k ls = ao_events (run_attempt i) ->
+    wf_events (is_some (ai_before i)) (is_some (ai_after i)) (all_decl i) (SchedP9.out_evs k tr) = true.
+Proof.
+  intros c ls s tr k i H L. rewrite (SchedP9.attempt_projection c ls s tr k H), L. apply attempt_wf.
+Qed.
